@@ -247,8 +247,78 @@ def run_frame(case, ctx):
                         ctx.violation(K + "score/input-modified", "score wrote into the caller's data", cfg=cfg)
                 except Exception:
                     ctx.excluded("score not available")
+            # a weighted score: the caller's weights (a writeable float64 array) are read, not rescaled in place
+            if hasattr(est, "score") and spec.kind == "xy" and "y" in D and not spec.no_weights:
+                wsc = numpy.random.RandomState(9).rand(len(D["y"])) + 0.5
+                wk = wsc.copy()
+                p1 = params_fp(est)
+                try:
+                    est.score(D["X"], D["y"], sample_weight=wsc)
+                    ctx.hit("frame.weighted_score")
+                    if not numpy.array_equal(wsc, wk):
+                        ctx.violation(K + "score/input-modified/sample_weight", "score wrote into the caller's "
+                                      "sample_weight", cfg=cfg)
+                    if diff_fp(p1, params_fp(est)):
+                        ctx.violation(K + "score/params-changed", "weighted score changed get_params", cfg=cfg)
+                except Exception:
+                    ctx.excluded("weighted score not available")
+            # calls that are refused (a batch of another width, None): nothing they report or hold changes either,
+            # and the next valid call answers as before
+            for m in spec.methods:
+                if m == "predict_leaves" and not hasattr(est, "leaves_index_"):
+                    continue
+                if not isinstance(Q, numpy.ndarray) or Q.ndim != 2:
+                    break
+                try:
+                    ref_m = spec.outputs(est, Q, [m])[m]
+                except Exception:
+                    continue
+                p1 = params_fp(est)
+                for bad in (numpy.ones((3, Q.shape[1] + 2)), None):
+                    try:
+                        getattr(est, m)(bad)
+                        continue
+                    except Exception:
+                        ctx.hit("frame.refused_calls")
+                    if diff_fp(p1, params_fp(est)):
+                        ctx.violation(K + "%s/params-changed/refused-call" % m, "a refused %s call changed get_params: "
+                                      "%r" % (m, diff_fp(p1, params_fp(est))[:3]), cfg=cfg)
+                        break
+                try:
+                    again_m = spec.outputs(est, Q, [m])[m]
+                    if not same_out(ref_m, again_m):
+                        ctx.violation(K + "%s/changed-by-refused-calls" % m, "%s answers differently after calls that "
+                                      "were refused" % m, cfg=cfg)
+                except Exception as e:
+                    ctx.violation(K + "%s/raised-after-refused-calls/%s" % (m, type(e).__name__), str(e)[:120], cfg=cfg)
             ctx.nontriv("frame", spec.name, vi, weighted)
     ctx.cls("class=" + spec.name)
+    # configurations whose methods are documented to refuse: the refusal changes no parameter, however often it is asked
+    if spec.name == "ConstraintKMeans":
+        import mlinsights.mlmodel as mm
+        Xc = numpy.random.RandomState(3).randn(30, 2)
+        est = mm.ConstraintKMeans(n_clusters=3, strategy="weights", balanced_predictions=True, random_state=0,
+                                  max_iter=4, n_init=1)
+        try:
+            est.fit(Xc)
+        except Exception:
+            est = None
+        if est is not None:
+            p1 = params_fp(est)
+            for rep in range(2):
+                for m in ("predict", "transform", "score"):
+                    try:
+                        getattr(est, m)(Xc[:6])
+                        outcome = "returned"
+                    except Exception as e:
+                        outcome = type(e).__name__
+                    ctx.hit("frame.refused_calls")
+                    d = diff_fp(p1, params_fp(est))
+                    if d:
+                        ctx.violation(K + "%s/params-changed/refused-configuration" % m, "%s (%s) with strategy='weights'"
+                                      " and balanced_predictions=True changed get_params: %r" % (m, outcome, d[:3]),
+                                      cfg={"class": spec.name, "strategy": "weights", "balanced_predictions": True})
+                        break
 
 
 def invalid_datasets(spec, D):
